@@ -19,3 +19,4 @@ import SpoxModel.Props.C05
 #print axioms C05.goodNames_exist
 #print axioms C05.eager_agrees_canonical
 #print axioms C05.supplemented_rejects_more
+#print axioms C05.kind_error_iff
